@@ -159,8 +159,21 @@ def enc_lit(text, next_is_dot=False, rng=None):
     return s
 
 
-def enc_descr(d):
-    return '"' + d.replace('\\', '\\\\').replace('"', '\\"') + '"'
+def enc_descr(d, rng=None):
+    """Spell a description.  With rng, a backslash followed by blanks / line breaks (a continuation: the parser
+    drops the backslash and all white space after it) is inserted now and then, never in front of white space of
+    the description itself."""
+    if rng is None:
+        return '"' + d.replace('\\', '\\\\').replace('"', '\\"') + '"'
+    out = ['"']
+    for i, c in enumerate(d):
+        if not c.isspace() and rng.random() < 0.06:
+            out.append('\\' + rng.choice([' ', '\n', '\t', ' \n   ', '\n\n']))
+        out.append({'\\': '\\\\', '"': '\\"'}.get(c, c))
+    if rng.random() < 0.05:
+        out.append('\\' + rng.choice([' ', '\n']))
+    out.append('"')
+    return ''.join(out)
 
 
 def starts_bare_lit(e):
@@ -262,7 +275,7 @@ class Printer:
             t = self.tok('lit', e, enc_lit(e[1], next_is_dot and e[2] is None, self.enc_rng))
             if e[2] is not None:
                 self.blank(False)
-                self.tok('descr', e, enc_descr(e[2]))
+                self.tok('descr', e, enc_descr(e[2], self.enc_rng))
             return t
         if k == 'nt':
             return self.tok('nt', e, '<' + e[1] + '>')
@@ -344,7 +357,7 @@ class Printer:
                 assert not (x[0] == 'lit' and x[2] is None), 'desc(bare lit) is lit with descr'
                 t = self.expr(x, 2.9, False)
             self.blank(False)
-            self.tok('descr', e, enc_descr(e[2]))
+            self.tok('descr', e, enc_descr(e[2], self.enc_rng))
             return t
         raise ValueError(k)
 
